@@ -369,7 +369,16 @@ def run_note_table(prog: Program):
     if fi is None:
         raise AnalysisError('anchor vanished: Story.script')
     rows = []
+    opaque = []
+    plain_opaque = eng.opaque_ext
+
+    def recording_opaque(name, args, kwargs, st, node):
+        # a library call (re, unicodedata, string ...) inside the script filter: its result is not folded, the row cannot be judged
+        opaque.append(name)
+        return plain_opaque(name, args, kwargs, st, node)
+    eng.opaque_ext = recording_opaque
     for text, expected in NOTE_REPRESENTATIVES:
+        del opaque[:]
         st = base_state(eng)
         root = new_root(st, 'RO', 'RO')
         x = st.new(ElemE('RO', 'story', root.sym, True, ('first', ('$', root.sym), 'story')))
@@ -394,6 +403,8 @@ def run_note_table(prog: Program):
                             got.add(('kept', t.v) if isinstance(t, Const) else ('unrecognised', eng.describe(t, s2)))
                 else:
                     got.add(('unrecognised', eng.describe(v, s2)))
+        if opaque:
+            got.add(('unrecognised', 'library call ' + ', '.join(sorted(set(opaque)))))
         rows.append({'text': text, 'expected': expected, 'got': sorted(got, key=repr)})
     return {'kind': 'notetable', 'name': 'Story.script', 'ok': True, 'rows': rows, 'findings': [], 'notes': eng.notes,
             'sites': {}, 'stats': eng.stats, 'functions': sorted(eng.functions_entered)}
